@@ -417,16 +417,24 @@ class OperatorProgram:
                                            **self._filters(h, oldnew=also in ('update', 'field')))(fn)
             elif kind == 'daemon':
                 kopf.daemon(*sel, registry=reg, id=h['id'], **self._common(h), **self._filters(h),
-                            initial_delay=h.get('initial_delay'),
+                            initial_delay=_delay(h.get('initial_delay')),
                             cancellation_backoff=h.get('cancellation_backoff'),
                             cancellation_timeout=h.get('cancellation_timeout'),
                             cancellation_polling=h.get('cancellation_polling'))(self._make_daemon(h))
             elif kind == 'timer':
                 kopf.timer(*sel, registry=reg, id=h['id'], **self._common(h), **self._filters(h),
                            interval=h.get('interval'), sharp=h.get('sharp'), idle=h.get('idle'),
-                           initial_delay=h.get('initial_delay'))(self._make_plain(h, 'timer'))
+                           initial_delay=_delay(h.get('initial_delay')))(self._make_plain(h, 'timer'))
             else:
                 raise ValueError(kind)
+
+
+def _delay(v):
+    """A constant, or '@callable:<seconds>' for the callable form of initial_delay."""
+    if isinstance(v, str) and v.startswith('@callable:'):
+        secs = float(v.split(':', 1)[1])
+        return lambda **_: secs
+    return v
 
 
 def kopf_parent_id():
